@@ -202,7 +202,7 @@ def nf_of_list(v):
     return v
 
 
-def make(kind, rng, x0, ints_only=False):
+def make(kind, rng, x0, ints_only=False, allow_empty=True):
     """(real object, NF) of a fresh operand of the given kind."""
     m = mods()
     n = lambda: num(rng, ints_only)
@@ -264,7 +264,8 @@ def make(kind, rng, x0, ints_only=False):
         c = n()
         return c + p, ('seq', [c + v for v in vals])
     if kind == 'chan':
-        vals = [n() for _ in range(rng.randint(1, 4) if rng.random() > 0.04 else 0)]
+        vals = [n() for _ in range(rng.randint(1, 4) if rng.random() > 0.04
+                                  or not allow_empty else 0)]
         return m['ugn'].ChannelList(list(vals)), ('chan', list(vals))
     if kind == 'nchan':
         vals = [n(), [n(), n()], (n(),) if rng.random() < 0.5 else n()]
